@@ -99,6 +99,31 @@ mutual
     | _, _ => false
 end
 
+/-- canonical bit pattern of a float under `==`: -0.0 becomes 0.0 -/
+def normBits (b : UInt64) : UInt64 := if b = 0x8000000000000000 then 0 else b
+
+mutual
+  /-- canonical form of a term under "identical modulo float ==": every -0.0 replaced by 0.0 -/
+  def normZero : Term → Term
+    | .flt b => .flt (normBits b)
+    | .app f as => .app f (normZeroArgs as)
+    | t => t
+  def normZeroArgs : Args → Args
+    | .nil => .nil
+    | .cons t ts => .cons (normZero t) (normZeroArgs ts)
+end
+
+mutual
+  /-- rename the variables of a term -/
+  def renameVars (ρ : Nat → Nat) : Term → Term
+    | .var v => .var (ρ v)
+    | .app f as => .app f (renameVarsArgs ρ as)
+    | t => t
+  def renameVarsArgs (ρ : Nat → Nat) : Args → Args
+    | .nil => .nil
+    | .cons t ts => .cons (renameVars ρ t) (renameVarsArgs ρ ts)
+end
+
 /-! ## what the sorting built-ins must return -/
 
 section Sorting
